@@ -416,6 +416,8 @@ class MetaOps(Relation):
             'entry': st.sampled_from(['setitem', 'update_dict', 'update_pairs',
                                       'update_kwargs', 'update_mixed_dict',
                                       'update_mixed_pairs', 'setdefault', 'ior',
+                                      'update_pos_bad_kwarg',
+                                      'update_kwargs_mixed',
                                       'ctor_dict', 'ctor_pairs', 'ctor_kwargs',
                                       'assign_dict', 'or', 'fromkeys']),
             'bad': st.integers(0, 7), 'pos': st.integers(0, 2),
@@ -488,6 +490,14 @@ class MetaOps(Relation):
                 obj.update(items)
             elif entry == 'setdefault':
                 obj.setdefault(bad, 'BAD')
+            elif entry == 'update_pos_bad_kwarg':
+                if not strkey:
+                    return
+                obj.update(dict(good), **{bad: 'BAD'})
+            elif entry == 'update_kwargs_mixed':
+                if not strkey:
+                    return
+                obj.update(**{k: v for k, v in items})
             elif entry == 'ior':
                 obj |= dict(items)
             elif entry == 'or':
